@@ -138,6 +138,19 @@ func (this *Conn) AddNode(id uint64, address string) {
 	} else if existing == "" && address != "" {
 		// A node recorded without an address (older bootstrap entries) becomes reachable
 		this.addresses[id] = address
+	} else if address != "" && existing != address {
+		// The node left and joined again from another address while this member was
+		// away: it learns only the outcome (from a snapshot), never the removal.
+		this.addresses[id] = address
+		this.connsMu.Lock()
+		if conn, exists := this.conns[id]; exists {
+			if err := conn.Close(); err != nil {
+				log.Error(err)
+			}
+			delete(this.conns, id)
+		}
+		this.connsMu.Unlock()
+		this.log.Infof("Conn: Node %16x moved to %s", id, address)
 	}
 }
 
